@@ -108,11 +108,11 @@ def slim(c):
 
 
 SIZES = {  # per property: harness arguments per tier
-    "C01": {"quick": dict(n01=150, n10r=0, n10f=6, n10m=0, n09=0, ncor=6, kf=3),
+    "C01": {"quick": dict(n01=700, n10r=0, n10f=12, n10m=0, n09=0, ncor=20, kf=4),
             "thorough": dict(n01=5000, n10r=0, n10f=60, n10m=0, n09=0, ncor=100, kf=0)},
-    "C10": {"quick": dict(n01=0, n10r=40, n10f=14, n10m=30, n09=0, ncor=0, kf=5),
+    "C10": {"quick": dict(n01=0, n10r=250, n10f=60, n10m=150, n09=0, ncor=0, kf=6),
             "thorough": dict(n01=0, n10r=1200, n10f=300, n10m=800, n09=0, ncor=0, kf=0)},
-    "C09": {"quick": dict(n01=0, n10r=0, n10f=0, n10m=0, n09=220, ncor=0, kf=0),
+    "C09": {"quick": dict(n01=0, n10r=0, n10f=0, n10m=0, n09=900, ncor=0, kf=0),
             "thorough": dict(n01=0, n10r=0, n10f=0, n10m=0, n09=8000, ncor=0, kf=0)},
 }
 
